@@ -21,7 +21,10 @@ def _graphs_for(job):
 def static_job(job):
     """Build Graph instances for every (mode, prune) and return their RexSchedule traces."""
     cfg = job["cfg"]
-    g_raw, eps, _ = _graphs_for(job)
+    try:
+        g_raw, eps, _ = _graphs_for(job)
+    except compiled.NoRecord as e:
+        return dict(traces=[], meta=[], skipped=str(e))
     n_eps = next(iter(g_raw.vertices.values())).seq.shape[0]
     out = dict(traces=[], meta=[])
     S_prev = None
@@ -60,7 +63,10 @@ def run_job(job):
     from . import probes, trace
 
     cfg = job["cfg"]
-    g_raw, eps_async, h_async = _graphs_for(job)
+    try:
+        g_raw, eps_async, h_async = _graphs_for(job)
+    except compiled.NoRecord as e:
+        return dict(static=[], runs=[], meta=[], skipped=str(e))
     n_eps = next(iter(g_raw.vertices.values())).seq.shape[0]
     out = dict(static=[], runs=[], meta=[])
     for mode, prune, opts in job["modes"]:
@@ -190,6 +196,8 @@ def api_job(job):
             t = compiled.project_run(st, cfg, gs0, hist, log, gs_f, rngidx, f"{job.get('id')}/h{hi}{'j' if jit else 'e'}")
             out["runs"].append(t)
             out["digests"].append(dict(hist=hist, nf=nf, s0=s0, jit=jit, digest=_digest(gs_f)))
+            for mm in (rj if jit else re).ss_mismatch:
+                out["checks"].append(dict(kind="returned_step_state_is_supervisor_step_state", hist=hist, call=mm, jit=jit, ok=False))
     # 3. vmapped batches against un-batched runs (no host logging under vmap)
     nq = gen.build_nodes(cfg, log=False)
     Gq = Graph(nodes=dict(nq), supervisor=nq[cfg["sup"]], graphs_raw=g_raw, supergraph=compiled.MODES[mode], prune=prune, progress_bar=False)
